@@ -77,6 +77,10 @@ func TestCheck(t *testing.T) {
 		kind := limgen.Kinds[r.IntN(4)]
 		spec := limgen.Gen(r, kind, limgen.Opts{NoProbe: true})
 		spec.Debug = r.IntN(5) == 0 // a debug-enabled logger must not change behaviour
+		if (kind == "vegas" || kind == "gradient") && spec.Initial <= 1000 && r.IntN(10) == 0 {
+			spec = spec.WithDefaultMax([]string{"0", "-1"}[r.IntN(2)]) // "give me the default" maximum
+			rt.Count("cases_asking_for_the_default_maximum", 1)
+		}
 		if kind != "aimd" && r.IntN(12) == 0 {
 			spec.Smoothing = []float64{1.5, 2.5, -1, 1.0000001}[r.IntN(4)] // out of range: the constructors fall back to their documented default
 			rt.Count("cases_with_out_of_range_smoothing", 1)
